@@ -307,3 +307,17 @@ func EvalNum(v string) (r *big.Rat, exact bool, err error) {
 	r, err = ev(x)
 	return r, exact, err
 }
+
+// Feasible asks a solver whether cond is satisfiable together with the axioms.
+// Unknown counts as feasible.
+func (e *Exec) Feasible(cond *Term) bool {
+	if cond.IsFalse() {
+		return false
+	}
+	if cond.IsTrue() {
+		return true
+	}
+	e.FeasCalls++
+	r := RunPortfolio(e.BuildSMT([]*Term{cond}, nil), 10*time.Second, []string{"z3"})
+	return r.Status != "unsat"
+}
